@@ -622,3 +622,14 @@ Definition p_margins (tolexp : Z) (bs : list (ckind * list dy)) (alpha beta : dy
       ofb (dleb (dsub alo slack) alpha && dleb alpha (dadd ahi slack) &&
            dleb (dsub blo slack) beta && dleb beta (dadd bhi slack))
   end.
+
+(** ** scale sweeps: cones are scale invariant.  Symmetric cones: the step of (2^k x, 2^k dx) is
+    bit-identical to that of (x, dx) ([c_bitsame]); nonsymmetric cones (backtracking): equal up to one
+    backtracking factor: both 0, or a·step <= b(1+2^-30) and b·step <= a(1+2^-30) *)
+Definition p_grid_equal (step a b : dy) : N :=
+  let up v := dadd v (dshift v (-30)) in
+  ofb ((deqb a d0 && deqb b d0) ||
+       (dltb d0 a && dltb d0 b && dleb (dmul a step) (up b) && dleb (dmul b step) (up a))).
+(** relative agreement 2^tolexp (PSD through LAPACK: square roots of odd powers of two are inexact) *)
+Definition p_rel_equal (tolexp : Z) (a b : dy) : N :=
+  ofb (dclose (dpow2 tolexp) (dmax (dabs a) (dabs b)) a b).
